@@ -18,6 +18,10 @@ def run(chk):
     tree_rules.setup_guards(chk, "C10")
     tree_rules.backtest_init_rules(chk, "C10")
     price_guard_in_allocate(chk)
+    from . import backtest_rules
+    backtest_rules.additional_data_only_prepended(chk)  # additional tables keep their own columns (an added all-NaN column is a NaN spread / coupon on a traded ticker)
+    from .c14 import tradability
+    tradability(chk)  # by default nothing without a usable price today is selected (allocating to it raises)
     from .c05 import loop_step
     loop_step(chk)  # a wrong step makes the search diverge and raise on well-formed input
     core_rules.division_guards(chk, "C10")
